@@ -4,7 +4,7 @@ from typing import Optional
 from ..core import Report
 from ..fjfront import Stl
 from ..pyfacts import Repo
-from ..stlrules import rule_closure, rule_extent, rule_alias, rule_cell_width, rule_ptr_stride, rule_scratch, rule_sp, rule_const_fits
+from ..stlrules import rule_closure, rule_extent, rule_alias, rule_cell_width, rule_ptr_stride, rule_scratch, rule_sp, rule_const_fits, rule_carry_top
 
 P = 'flipjump/stl/hex/pointers/'
 FILES = ['flipjump/stl/ptrlib.fj', P + 'basic_pointers.fj', P + 'read_pointers.fj', P + 'write_pointers.fj', P + 'xor_to_pointer.fj',
@@ -23,12 +23,13 @@ def check(rep: Report, repo: Optional[Repo] = None) -> None:
     rule_scratch(rep, stl, 'C08', FILES, 20)
     rule_alias(rep, stl, 'C08', FILES, 2)
     rule_const_fits(rep, stl, 'C08', FILES, 6)
+    rule_carry_top(rep, stl, 'C08', FILES, 1)
     rep.assumptions.append('footprints assume generic position: distinct symbolic operands of a compile-time `==` / `!=` aliasing test denote distinct variables')
     rep.not_decided.append('that a dereference touches exactly the pointed cell and restores the shared to_flip/to_jump ops (value-level)')
 
 
 MANIFEST = dict(
-    technique='own .fj front end: link closure, extents, symbolic stack-pointer effect summaries, pointer stride arithmetic; constant-width rule',
+    technique='own .fj front end: link closure, extents, symbolic stack-pointer effect summaries, pointer stride arithmetic; constant-width rule; in-place arithmetic reaches the top of the assigned extent (CARRY-TOP)',
     level_text='Also: constants written into fixed-width vectors fit. Static, PARTIAL: closure and extents as for C04; stack-pointer deltas compose additively (push +1 / pop -1, push n and pop n '
                'opposite with reversed cell order, call nets 0), so every balanced sequence restores sp; pointer arithmetic moves by '
                'exactly one cell (dw) and ptr_index scales by 2w. It does NOT decide what a dereference reads or writes.',
